@@ -267,12 +267,24 @@ def getattr_(e: Engine, n: ast.Call, st: State) -> SV:
     key = e.ev(n.args[1], st)
     if not (key.tag and key.tag[0] == "lit"):
         raise Unsupported("getattr with non-literal key")
-    try:
-        return e.load_field(st, recv, key.tag[1])
-    except Unsupported:
-        if len(n.args) == 3:
-            return e.ev(n.args[2], st)
-        raise
+    fname = key.tag[1]
+    if len(n.args) == 3:
+        dflt = e.ev(n.args[2], st)
+        try:
+            owner, _ = e.resolve_field(st, recv, fname)
+        except Unsupported:
+            return dflt
+        if owner.endswith(".Metadata") or owner == "Metadata*":
+            has = And(Not(recv.none), e.metadata_has_field(recv.v, fname))
+            saved = e.spec_mode
+            e.spec_mode = True          # the load itself cannot raise: guarded by `has`
+            try:
+                val = e.load_field(st, recv, fname)
+            finally:
+                e.spec_mode = saved
+            return ite_sv(has, val, dflt)
+        return e.load_field(st, recv, fname)
+    return e.load_field(st, recv, fname)
 
 
 # ---------------------------------------------------------------------------- builtins
